@@ -5,7 +5,7 @@ import json, os, re
 ROOT = os.path.dirname(os.path.dirname(os.path.abspath(__file__)))
 res = json.load(open(os.path.join(ROOT, "seeded", "RESULTS.json")))
 rows = ["| change | property | what it breaks / what it needs | confirmed | quick check | how it was reported |", "|---|---|---|---|---|---|"]
-for n in sorted(d for d in os.listdir(os.path.join(ROOT, "seeded")) if os.path.isdir(os.path.join(ROOT, "seeded", d))):
+for n in sorted(d for d in os.listdir(os.path.join(ROOT, "seeded")) if os.path.exists(os.path.join(ROOT, "seeded", d, "meta.json"))):
     d = os.path.join(ROOT, "seeded", n)
     meta = json.load(open(os.path.join(d, "meta.json")))
     conf = json.load(open(os.path.join(d, "confirm.json"))) if os.path.exists(os.path.join(d, "confirm.json")) else {}
